@@ -274,12 +274,11 @@ def run_check(eng, prop, tier, seed, runs=None, jobs=None, out_dir=None):
     for idx, dg in fres.items():
         if sampled.get(idx) != dg:
             mismatches.append(('fresh-interpreter', idx, sampled.get(idx), dg))
-    if mismatches:
-        print(f'HARNESS-ERROR nondeterminism: {len(mismatches)} digest mismatches, e.g. {mismatches[:3]}')
-        return 2
+    nondeterministic = bool(mismatches)
 
     # ---- violations: known findings, minimise, replay-verify, report ----
     exit_code = 0
+    harness_problem = False
     reported = []
     known_seen = []
     # committed witnesses of known findings are replayed even if the batch avoided them
@@ -349,7 +348,7 @@ def run_check(eng, prop, tier, seed, runs=None, jobs=None, out_dir=None):
                 (res['digest'] != out['digest'] and not is_hang):
             print(f'HARNESS-ERROR violation {mviol["sig"]} (run {idx}) did not replay identically in a fresh '
                   f'process: got {res}; replay file {path}')
-            exit_code = max(exit_code, 2)
+            harness_problem = True
             continue
         print(f'  violation signature={mviol["sig"]} runs={count} first_run_index={idx} '
               f'plan_size {size}->{plan_size(rep["plan"])} ({used} minimisation runs)\n    {mviol["msg"]}')
@@ -357,6 +356,16 @@ def run_check(eng, prop, tier, seed, runs=None, jobs=None, out_dir=None):
         reported.append(mviol['sig'])
         exit_code = max(exit_code, 1)
 
+    if nondeterministic:
+        # Runs that are not repeatable: never exit 0. If a violation was nevertheless confirmed by an exact
+        # replay in a fresh process it stands (process-wide state in the tree under test - a cache, a leaked
+        # global - makes runs depend on their predecessors, which is itself what some properties forbid).
+        print(f'HARNESS-ERROR nondeterminism: {len(mismatches)} digest mismatches between repeated executions of '
+              f'the same run, e.g. {mismatches[:3]}' + (' (violations above were each confirmed by an exact replay '
+                                                       'in a fresh process)' if reported else ''))
+        harness_problem = True
+    if harness_problem and exit_code == 0:
+        exit_code = 2      # never 0 when something could not be trusted; a confirmed violation stays exit 1
     wall = time.time() - t0
     ev = {
         'property_id': prop, 'tier': tier, 'seed': seed, 'level': eng.level(prop),
@@ -377,7 +386,7 @@ def run_check(eng, prop, tier, seed, runs=None, jobs=None, out_dir=None):
                          if not k.startswith(('fault:', 'probe:')) and k != 'steps'},
             'coverage_table': eng.coverage_report(prop, cov),
             'determinism': {'rerun_in_process': len(sample_in), 'rerun_fresh_interpreter': len(sample_fresh),
-                            'fresh_PYTHONHASHSEED': hs, 'mismatches': 0},
+                            'fresh_PYTHONHASHSEED': hs, 'mismatches': len(mismatches)},
             'components': eng.components(prop),
             'known_findings_seen': known_seen,
             'violation_signatures': reported,
